@@ -246,6 +246,96 @@ func C18(ctx *core.Ctx) {
 			}
 		}
 	})
+	// ---- R6: an audit judges the two files it was given --------------------------------
+	// The models behind a.oldFrugal / a.newFrugal are the ones parsed by this
+	// call: Audit never reads those fields before it has stored them (a model
+	// kept from an earlier Audit of the same Auditor is another file's).
+	ctx.Rule("C18.R6", "every Audit call compares the models parsed from its own two files: the auditor's model fields are not read before this call stored them", 2)
+	for _, field := range []string{"oldFrugal", "newFrugal"} {
+		var stores, loads []ssa.Instruction
+		ssax.Instrs(audit, func(in ssa.Instruction) {
+			switch x := in.(type) {
+			case *ssa.Store:
+				if fieldNameOfAddr(x.Addr) == field {
+					stores = append(stores, in)
+				}
+			case *ssa.UnOp:
+				if x.Op == token.MUL && fieldNameOfAddr(x.X) == field {
+					if fa, ok := x.X.(*ssa.FieldAddr); ok && ssax.TypeNamed(fa.X.Type(), "", "Auditor") {
+						loads = append(loads, in)
+					}
+				}
+			}
+		})
+		bad := ""
+		for _, ld := range loads {
+			dom := false
+			for _, st := range stores {
+				if ssax.Dominates(st, ld) {
+					dom = true
+				}
+			}
+			if !dom {
+				bad = cc.IPos(ld)
+			}
+		}
+		ctx.Check(bad == "" && len(stores) > 0, "C18.R6", "Audit › a."+field+" is this call's model wherever it is read", cc.FPos(audit), sprintf("%d store(s), %d read(s) all after a store", len(stores), len(loads)),
+			"Audit reads a."+field+" at "+bad+" before this call has stored it (or never stores it): from the second Audit on one Auditor the comparison uses the model of an earlier call's file — a breaking change is passed, or identical files are reported as breaking")
+	}
+
+	// ---- R5: comparisons look at whole declared values ----------------------------------
+	// A same-attribute comparison whose two sides are the same model method is
+	// only as strong as that method: one that returns a *part* of a declared
+	// name (the text after the include qualifier, a lower-cased spelling …)
+	// makes declarations equal that differ in the rest.
+	ctx.Rule("C18.R5", "compatibility comparisons use whole declared values: where both sides of an old/new comparison are the same model method, the method is not a projection that drops part of the declaration", 1)
+	{
+		lossy := func(m *ssa.Function) string {
+			why := ""
+			for _, c := range ssax.Calls(m) {
+				switch c.FullName() {
+				case "strings.Split", "strings.SplitN", "strings.Index", "strings.LastIndex", "strings.TrimPrefix", "strings.TrimSuffix", "strings.ToLower", "strings.ToUpper", "strings.Title", "strings.Fields", "strings.Cut", "strings.TrimLeft", "strings.TrimRight", "path/filepath.Base", "path.Base":
+					why = c.FullName()
+				}
+			}
+			ssax.Instrs(m, func(in ssa.Instruction) {
+				if sl, ok := in.(*ssa.Slice); ok {
+					if b, isB := sl.X.Type().Underlying().(*types.Basic); isB && b.Kind() == types.String {
+						why = "a substring"
+					}
+				}
+			})
+			return why
+		}
+		nCmp, nBad := 0, 0
+		for _, f := range auditFns {
+			ssax.Instrs(f, func(in ssa.Instruction) {
+				bo, ok := in.(*ssa.BinOp)
+				if !ok || (bo.Op != token.EQL && bo.Op != token.NEQ) {
+					return
+				}
+				cx, okx := ssax.Strip(bo.X).(*ssa.Call)
+				cy, oky := ssax.Strip(bo.Y).(*ssa.Call)
+				if !okx || !oky {
+					return
+				}
+				mx, my := cx.Call.StaticCallee(), cy.Call.StaticCallee()
+				if mx == nil || mx != my || mx.Pkg != pp || mx.Signature.Recv() == nil || len(mx.Blocks) == 0 {
+					return
+				}
+				nCmp++
+				if why := lossy(mx); why != "" {
+					nBad++
+					ctx.Violate("C18.R5", QName(f)+" › comparison of "+mx.Name()+"() on both sides", cc.IPos(in),
+						"both sides of the comparison are "+QName(mx)+", which returns only a part of the declaration ("+why+"): two declarations that differ in the dropped part — a parent service of the same name from another include, a differently qualified type — compare equal and the breaking change passes the audit")
+				}
+			})
+		}
+		if nBad == 0 {
+			ctx.Discharge("C18.R5", "audit › no comparison through a projecting accessor", "", sprintf("%d method-vs-method comparison(s) examined in %d audit function(s)", nCmp, len(auditFns)))
+		}
+	}
+
 	// parameter colours to a fixpoint
 	for iter := 0; iter < 12; iter++ {
 		changed := false
